@@ -246,7 +246,23 @@ class Fn:
         if self.name is None:
             self.name = m.group(1)
         # body open: first '{' at paren/bracket/angle-free depth 0 after the parameter list
-        i = self.mask.index('(', m.end())
+        i = m.end()
+        while self.mask[i].isspace():
+            i += 1
+        if self.mask[i] == '<':
+            # generic parameter list: match angle brackets, ignoring the '>' of '->'
+            d = 0
+            while i < len(self.mask):
+                ch = self.mask[i]
+                if ch == '<':
+                    d += 1
+                elif ch == '>' and self.mask[i - 1] != '-':
+                    d -= 1
+                    if d == 0:
+                        i += 1
+                        break
+                i += 1
+        i = self.mask.index('(', i)
         close = match_close(self.mask, i, '(', ')')
         self.params_span = (i, close + 1)
         j = close + 1
@@ -299,6 +315,65 @@ class Fn:
         self.text = ''.join(out)
         self._rescan()
         return n
+
+    def annotate_closure(self, param, typed, ret, nth=None, expect=None):
+        """R-closure: `|param| BODY` -> `|typed| -> (ret) { BODY }` (BODY verbatim).
+        `ret` may contain $BODY, replaced by the closure's own body expression, e.g.
+        "o: (u32, u32)) ensures o == ($BODY" is written as ret='(o: T) ensures o == ($BODY)'.
+        nth: only the nth (0-based) closure with this parameter text; default all."""
+        rx = re.compile(r'\|\s*' + re.escape(param) + r'\s*\|')
+        hits = [m for m in rx.finditer(self.mask)]
+        if nth is not None:
+            hits = hits[nth:nth + 1]
+        if expect is not None and len(hits) != expect:
+            raise LostAnchor('closure |%s| in %s: %d found, %d expected' % (param, self.name, len(hits), expect))
+        if not hits:
+            raise LostAnchor('closure |%s| not found in %s' % (param, self.name))
+        edits = []
+        for m in hits:
+            j = m.end()
+            while self.mask[j].isspace():
+                j += 1
+            if self.mask[j] == '{':
+                e = match_close(self.mask, j) + 1
+                body = self.text[j + 1:e - 1].strip()
+            else:
+                b = p = k = 0
+                e = j
+                while e < len(self.mask):
+                    ch = self.mask[e]
+                    if ch in '({[':
+                        if ch == '(':
+                            p += 1
+                        elif ch == '{':
+                            b += 1
+                        else:
+                            k += 1
+                    elif ch in ')}]':
+                        if (ch == ')' and p == 0) or (ch == '}' and b == 0) or (ch == ']' and k == 0):
+                            break
+                        if ch == ')':
+                            p -= 1
+                        elif ch == '}':
+                            b -= 1
+                        else:
+                            k -= 1
+                    elif ch in ',;' and b == 0 and p == 0 and k == 0:
+                        break
+                    e += 1
+                body = self.text[j:e].rstrip()
+            new = '|%s| -> %s { %s }' % (typed, ret.replace('$BODY', body), body)
+            edits.append((m.start(), e, new))
+        out = []
+        pos = 0
+        for a, b_, new in edits:
+            out.append(self.text[pos:a])
+            out.append(new)
+            pos = b_
+        out.append(self.text[pos:])
+        self.text = ''.join(out)
+        self._rescan()
+        return len(edits)
 
     def strip_attrs_and_docs(self):
         """R-attr: drop doc comments and the listed harmless attributes in front
